@@ -88,7 +88,9 @@ SPECS = {
         "rule": "one evaluation = one seeded iteration history (reset + 1..6 real iterations, driven from Python exactly as learn scans them); "
         "RefSchedule checks the iteration counter, DQN hard copies on multiples of the interval and frozen targets in between (exact), SAC "
         "Polyak once per iteration, actor/alpha gating on one residue class of policy_frequency; non-trivial = a target tick or actor tick "
-        "fired; distinct = distinct (shape class, fired event kinds)",
+        "fired; distinct = distinct (shape class, fired event kinds).  (train) additionally a spy callback reports, from INSIDE the real learn(), iteration "
+        "count, online and target networks at every iteration and at the end: one Polyak step per iteration (SAC) / target = online network of the last sync (DQN), "
+        "under either reading of where in the iteration the callback fires",
         "assumptions": ["the phase of SAC's policy_frequency gating is not fixed by the statement: any single residue is accepted"],
         "real": ["lerax AbstractAlgorithmState.next, DQN.per_iteration, SAC.sac_train gating, _soft_update_targets"],
         "stub": STUB_MDP[:3],
@@ -145,7 +147,9 @@ SPECS = {
         "rule": "one evaluation = one seeded simulated run: (mask_query) episodes on a masked SimMDP whose mask changes with the state, with shadow "
         "queries at every step in key-less / keyed (K keys) / epsilon-greedy modes of table policies and of the real MLPActorCriticPolicy / MLPQPolicy; "
         "(collect_on) the real on-policy collection with masks, the environment poisoning any masked action; non-trivial = a single-action mask, a mask "
-        "change or a state where a non-greedy action was possible occurred; distinct = distinct (shape class, fired event kinds)",
+        "change or a state where a non-greedy action was possible occurred; distinct = distinct (shape class, fired event kinds).  Frequency-probe classes "
+        "(2048 keys per context): how often the most probable JOINT action comes back vs the probability the policy reports for it, pooled over the run "
+        "(Azuma-Hoeffding, false-alarm probability <= 1e-12)",
         "assumptions": ["invariants over simulated interactions, not the all-parameters identity", "epsilon bound decided as a count over K=4096 keys with Hoeffding slack at 1e-12",
                         "off-policy collection passes no mask to the policy (not part of the statement), so Q policies are judged through shadow queries only"],
         "real": ["lerax Categorical/MultiCategorical/Bernoulli.mask, ActionLayer, MLPActorCriticPolicy, AbstractQPolicy.__call__, MLPQPolicy", "on-policy collection loop"],
@@ -190,7 +194,7 @@ SPECS = {
         "assumptions": ["payload bit flips are not injected (the statement promises no checksums)", "EACCES not injected (the sandbox runs as root)",
                         "file stems contain no dot other than the suffix", "Python-float hyper-parameters compared after float32 rounding"],
         "real": ["lerax Serializable.serialize/deserialize, MLPActorCriticPolicy / MLPQPolicy / MLPSACPolicy constructors and inference, equinox serialisation, the real file system (temp dir)"],
-        "stub": ["SimMDP variants only as carriers of action/observation spaces", "FaultyOpen (short write + ENOSPC)"],
+        "stub": ["SimMDP variants only as carriers of action/observation spaces", "FaultyOpen (short write + ENOSPC, or the open itself fails with the older file intact)"],
     },
     "C11": {
         "scenarios": [{"name": "train", "runs": {"quick": 24, "thorough": 1000000}, "chunks": {"quick": 1, "thorough": 1}}],
@@ -198,7 +202,8 @@ SPECS = {
         "rule": "one evaluation = one seeded configuration (algorithm x environment x observer set x total_timesteps x policy/learn keys x tables x "
         "host-fault schedule): the real learn() is run observer-free, repeated, with another key, with the observer set (recording / console / "
         "TensorBoard / progress bar / callback list / video through the simulated executor, injected back-end failure, simulated wall clock) and, for "
-        "a fraction, in a fresh interpreter under another PYTHONHASHSEED; all trained array leaves are compared bit for bit; non-trivial = a "
+        "a fraction, in a fresh interpreter under another PYTHONHASHSEED (in half of those after importing every lerax module first); all trained array leaves are compared bit for bit; "
+        "constructor-purity class: default object, another object with modified copies of every dict-valued option, default object again - configuration digests must not move; non-trivial = a "
         "fault or total_timesteps not a multiple of the iteration size; distinct = distinct (class, fired kinds, total)",
         "assumptions": ["bit-equality is demanded of parameters; should XLA re-associate because an observer changes the program the check downgrades to 1e-6 relative and reports the probe",
                         "XLA's own scheduling of host callbacks is not controlled; the one place lerax creates concurrency (video executor) is"],
@@ -211,13 +216,16 @@ SPECS = {
         "budget_s": {"quick": 900, "thorough": 2400},
         "rule": "one evaluation = one seeded auto-reset rollout (50..600 steps) of a built-in environment (constructor variant, optional wrapper "
         "stack) driven by a seeded adversary action schedule (uniform samples / long hold of the low or high bound corner / alternation between "
-        "opposite corners with a drawn period / mixed corners); invariants after every step: observation in the declared space with canonical "
+        "opposite corners with a drawn period / mixed corners / one-step look-ahead towards the bounds); invariants after every step: observation in the declared space with canonical "
         "shape and dtype and no NaN, generated action in the action space, finite float scalar reward, boolean scalar flags; non-trivial = an "
-        "episode end or a bound-corner action occurred; distinct = distinct (environment class, adversary mode, fired event kinds)",
+        "episode end or a bound-corner action occurred; distinct = distinct (environment class, adversary mode, fired event kinds).  Further classes: stacks with a "
+        "pass-through wrapper outside a space-changing one; stacks with non-centred RescaleAction ranges over a seam (ActionSpy) that notes whether the action "
+        "reaching the environment is a member of its space; constructor sweep = random and one-flag-odd combinations of every documented observation option of the "
+        "MuJoCo environments, decided abstractly with jax.eval_shape (declared space vs shape/dtype of reset and step outputs)",
         "assumptions": ["both tiers: 5 classic-control environments (Euler and Tsit5 variants), all 11 MuJoCo environments and the 3 Unitree G1 tasks; the thorough tier runs them longer",
                         "Python-side-state independence is decided by the re-execution digests (same process) of the driver"],
         "real": ["all built-in environments incl. diffrax solves and mjx.step, wrappers over them, spaces' contains/sample"],
-        "stub": ["adversary action schedule"],
+        "stub": ["adversary action schedule", "ActionSpy (identity wrapper between stack and environment)"],
     },
     "C20": {
         "scenarios": [{"name": "g1", "runs": {"quick": 6, "thorough": 1000000}, "chunks": {"quick": 1, "thorough": 1}}],
@@ -228,7 +236,7 @@ SPECS = {
         "stored kinematics equal mjx.forward of the stored configuration; at every control step both phases lie in [-pi, pi], stay half a cycle apart and "
         "advance by 2*pi*f*dt; (clock classes) the phase clock alone for 2e5..1e6 ticks per drawn (frequency, dt) and the foot-height profile on a "
         "4001-point phase grid; non-trivial = a reset event or a phase wrap occurred; distinct = distinct (class, fired event kinds, variant)",
-        "assumptions": ["pi taken as float32 pi with slack 1e-6; half-cycle slack 1e-3 in the clock runs (measured drift 2.4e-7), 1e-4 in episodes",
+        "assumptions": ["pi taken as float32 pi with slack 1e-6; half-cycle slack in the clock runs: 1e-5 per tick and 1e-4 + 5e-7*n after n ticks (float32 rounding of the two legs differs; measured 2.7e-8 per tick), 1e-4 in episodes",
                         "quick tier: default constructor ranges only; thorough tier adds a constructor swarm incl. degenerate lo == hi ranges"],
         "real": ["lerax G1Locomotion / G1Standing / G1Standup initial, step, randomize_*, gait helpers, mjx.forward / mjx.step, TimeLimit"],
         "stub": ["adversary actions (uniform samples or a held bound corner)"],
